@@ -88,8 +88,10 @@ FaultOf(ev) == (ev.flt % 4) + (IF \E g \in {0, 1, 2, 3, 5} : Bit(ev.gf, g) THEN 
 
 (* C19: ledger monitors.  live = allocations of this interface still held when the handler   *)
 (* returned; live0 = the same before the request.                                            *)
+RetainPerRequest == 8
 LedgerOK(ev, req, a) ==
-  /\ ev.live - ev.live0 <= 2                     \* retained state grows by at most a record and a node
+  /\ ev.live - ev.live0 <= RetainPerRequest      \* one request adds a bounded handful of retained buffers (record, node, cache,
+                                                 \* transmit buffer ...), never something per descriptor or per byte
   /\ ev.live >= 0
   /\ (Chk("EQ") /\ ev.eq = 1) => ev.live = Log[l - 1].live /\ ev.bytes = Log[l - 1].bytes   \* twins hold the same
   /\ (l > 1 /\ Log[l - 1].e = "req" /\ Log[l - 1].ifc = ev.ifc /\ Log[l - 1].b = ev.b
